@@ -23,8 +23,8 @@ type dmConfig struct {
 }
 
 var dirPool = []string{"/etc/cdi", "/run/cdi", "/opt/vendor/cdi", "/usr/local/etc/cdi"}
-var specNames = []string{"a.json", "b.yaml", "c.yaml", "vendor-gpu.json", "z.json"}
-var otherNames = []string{"README", "x.yml", "x.yaml.bak", "notes.txt", "y.json.tmp"}
+var specNames = []string{"a.json", "b.yaml", "c.yaml", "vendor-gpu.json", "z.json", ".json", "a.json.yaml"}
+var otherNames = []string{"README", "x.yml", "x.yaml.bak", "notes.txt", "y.json.tmp", "X.JSON", "b.Yaml", "json"}
 
 type dm struct {
 	*env
@@ -298,9 +298,13 @@ func dirmodel(r *core.Run, cfg dmConfig) {
 		d.anyChange()
 	}
 	src.End()
-	// create the cache
+	// create the cache; the directories are sometimes given in a spelling that is not clean
+	given := uncleanDirs(src, d.dirs)
+	if fmt.Sprint(given) != fmt.Sprint(d.dirs) {
+		r.Notef("directories given as %q", given)
+	}
 	e.do("NewCache", func() {
-		c, _ := cdi.NewCache(cdi.WithSpecDirs(d.dirs...), cdi.WithAutoRefresh(auto))
+		c, _ := cdi.NewCache(cdi.WithSpecDirs(given...), cdi.WithAutoRefresh(auto))
 		e.cache = c
 	})
 	d.refreshPoint("initial")
@@ -318,6 +322,33 @@ func dirmodel(r *core.Run, cfg dmConfig) {
 		src.End()
 	}
 	r.Trivial = false
+}
+
+// uncleanDirs returns the directory list in spellings that filepath.Clean maps
+// back to the given ones ("/etc/cdi/", "/etc//cdi", "/etc/./cdi", "/etc/cdi/../cdi").
+func uncleanDirs(src interface {
+	Bool(int, int) bool
+	Intn(int) int
+}, dirs []string) []string {
+	out := append([]string(nil), dirs...)
+	if !src.Bool(1, 4) {
+		return out
+	}
+	for i, d := range out {
+		base := filepath.Base(d)
+		parent := filepath.Dir(d)
+		switch src.Intn(5) {
+		case 1:
+			out[i] = d + "/"
+		case 2:
+			out[i] = parent + "//" + base
+		case 3:
+			out[i] = parent + "/./" + base
+		case 4:
+			out[i] = d + "/../" + base
+		}
+	}
+	return out
 }
 
 func (d *dm) anyChange() {
